@@ -570,6 +570,7 @@ pub fn run(tier: Tier) -> i32 {
     run.assume("categorize: amounts are conserved per category and overall; the statement does not require synonyms to be merged under one entry");
     run.replay_regressions(&|part, j| match part {
         "histories" => check_history(&case_from(j)?, &mut Stats::default()),
+        "same-name" => check_same_name(&case_from(j)?, &mut Stats::default()),
         _ => check_case(&case_from(j)?, &mut Stats::default()),
     });
     if !run.failed() {
@@ -620,12 +621,102 @@ pub fn run(tier: Tier) -> i32 {
             |c: &RecipeCase, st| check_case(c, st),
         );
     }
+    if !run.failed() {
+        run_prop(
+            &mut run,
+            "same-name",
+            "one recipe with 2-7 ingredient definitions drawn from 6 names that share display names (the same name twice, aliases `white flour|flour` / `rye flour|flour`, `+` / `-` / `?` modifiers), numeric amounts in mass, volume, unknown or no units and text amounts, default-scaled or scaled by 2: IngredientList::from_recipe, add_recipe on an empty list and from_recipe + add_recipe of the same recipe must list exactly the display names of the listed ingredients with the sum of their own quantities (twice for the last); non-trivial = two definitions share a display name",
+            || (proptest::collection::vec((0u8..6, any::<u8>(), 0u8..7, prop_oneof![4 => Just(0u8), 1 => 1u8..4]), 2..=7), any::<bool>()).prop_map(|(defs, scaled)| SameNameCase { defs, scaled }),
+            tier.pick(4_000, 200_000),
+            check_same_name,
+        );
+    }
     run.finish()
+}
+
+// ---------------------------------------------------------------------------
+// several listed definitions under one display name
+
+const SAME_NAMES: [&str; 6] = ["salt", "white flour|flour", "rye flour|flour", "flour", "Salt", "sea salt|salt"];
+const SAME_UNITS: [&str; 7] = ["%g", "%kg", "", "%pinch", "%cup", "%ml", "%oz"];
+const SAME_TEXTS: [&str; 3] = ["a handful", "to taste", "some"];
+
+/// (name, value 1..60 or a text, unit, modifier: 0 none, 1 `+` new, 2 `-` hidden, 3 `?` optional)
+#[derive(Debug, Clone, Serialize, Deserialize)]
+pub struct SameNameCase {
+    pub defs: Vec<(u8, u8, u8, u8)>,
+    pub scaled: bool,
+}
+
+fn same_name_source(c: &SameNameCase) -> String {
+    let mut s = String::from("Mix");
+    for (n, v, u, m) in &c.defs {
+        let name = SAME_NAMES[*n as usize % SAME_NAMES.len()];
+        let value = if v % 7 == 6 { SAME_TEXTS[*v as usize % 3].to_string() } else { (1 + v % 60).to_string() };
+        let unit = if v % 7 == 6 { "" } else { SAME_UNITS[*u as usize % SAME_UNITS.len()] };
+        let modifier = ["", "+", "-", "?"][*m as usize % 4];
+        s.push_str(&format!(" @{modifier}{name}{{{value}{unit}}},"));
+    }
+    s.push_str(" well.\n");
+    s
+}
+
+fn check_same_name(c: &SameNameCase, st: &mut Stats) -> Verdict {
+    let src = same_name_source(c);
+    st.sample(|| json!({"source": src}));
+    let Some(r) = cooklang::CooklangParser::new(cooklang::Extensions::all(), CONV.clone()).parse(&src).into_output() else {
+        vbail!("c10.infrastructure", "the generated recipe does not parse: {src:?}");
+    };
+    let r = if c.scaled { r.scale(2.0, &*CONV) } else { r.default_scale() };
+    // every ingredient here is a definition (no `&`, default mode): its own quantity, under its display name
+    let mut expected: BTreeMap<String, Totals> = BTreeMap::new();
+    let mut per_name: BTreeMap<String, usize> = BTreeMap::new();
+    for i in &r.ingredients {
+        if !i.modifiers().should_be_listed() {
+            continue;
+        }
+        let e = expected.entry(i.display_name().into_owned()).or_default();
+        e.merge(&Totals::of(i.quantity.iter()));
+        *per_name.entry(i.display_name().into_owned()).or_insert(0usize) += 1;
+    }
+    let read = |l: &IngredientList| -> BTreeMap<String, Totals> { l.iter().map(|(k, q)| (k.clone(), Totals::of(q.iter()))).collect() };
+    let from_recipe = match guard(|| IngredientList::from_recipe(&r, &*CONV)) {
+        Ok(l) => l,
+        Err(p) => vbail!("c10.panic.add_recipe", "IngredientList::from_recipe panicked: {p}; source {src:?}"),
+    };
+    let mut added = IngredientList::new();
+    added.add_recipe(&r, &*CONV);
+    let mut twice = IngredientList::from_recipe(&r, &*CONV);
+    twice.add_recipe(&r, &*CONV);
+    let mut doubled = expected.clone();
+    for (k, t) in &expected {
+        doubled.get_mut(k).unwrap().merge(t);
+    }
+    for (what, got, want) in [("IngredientList::from_recipe", read(&from_recipe), &expected), ("add_recipe on an empty list", read(&added), &expected), ("from_recipe followed by add_recipe of the same recipe", read(&twice), &doubled)] {
+        vensure!(
+            got.keys().collect::<Vec<_>>() == want.keys().collect::<Vec<_>>(),
+            "c10.list-views-differ",
+            "{what} lists {:?}, the listed ingredients have the display names {:?}; source {src:?}",
+            got.keys().collect::<Vec<_>>(), want.keys().collect::<Vec<_>>()
+        );
+        for (k, t) in &got {
+            if let Err(e) = want[k].same(t) {
+                vbail!("c10.list-total", "{what}: entry {k:?} differs from the sum of the ingredients listed under that name: {e}; source {src:?}");
+            }
+        }
+    }
+    let shared = per_name.values().any(|n| *n > 1);
+    st.class_if(shared, "several definitions under one display name");
+    if shared {
+        st.nontrivial(&src);
+    }
+    Ok(())
 }
 
 pub fn replay(part: &str, j: &serde_json::Value) -> Verdict {
     match part {
         "histories" => check_history(&case_from(j)?, &mut Stats::default()),
+        "same-name" => check_same_name(&case_from(j)?, &mut Stats::default()),
         _ => check_case(&case_from(j)?, &mut Stats::default()),
     }
 }
